@@ -67,6 +67,11 @@ func (t *tableOracle) GetBlockHeaderByHash(hash []byte) (*types.Header, error) {
 	return &types.Header{Root: common.BytesToHash(root)}, nil
 }
 
+var (
+	c13SharedOracle    = &tableOracle{roots: map[string][]byte{}}
+	c13SharedValidator *state.StateValidator
+)
+
 type c13RecPut struct{ key, id, val []byte }
 type c13RecStore struct{ puts []c13RecPut }
 
@@ -233,11 +238,22 @@ func runItem(o *Out, it c13item, mut string, st *c13stats) {
 		o.Comment("serializer refused " + mut + ": " + err.Error())
 		return
 	}
-	or := &tableOracle{roots: map[string][]byte{}}
-	for _, e := range it.oracle {
-		or.roots[string(e.bh)] = e.root
+	// ONE validator for the whole run (as a node has), over a header source whose answers are set per case: whatever a
+	// call leaves behind must not help a later one. A rejected item is offered a second time at once (a retry, the same
+	// offer from a second peer): it counts as accepted if either call accepts.
+	if c13SharedValidator == nil {
+		c13SharedValidator = state.NewStateValidator(c13SharedOracle)
 	}
-	v := callValidate(state.NewStateValidator(or), key, content)
+	c13SharedOracle.roots = map[string][]byte{}
+	for _, e := range it.oracle {
+		c13SharedOracle.roots[string(e.bh)] = e.root
+	}
+	v := callValidate(c13SharedValidator, key, content)
+	if v == "err" {
+		if v2 := callValidate(c13SharedValidator, key, content); v2 != "err" {
+			v = v2
+		}
+	}
 	rec := &c13RecStore{}
 	id := sha256.Sum256(key)
 	p := callPut(state.NewStateStorage(rec, nil), key, id[:], content)
